@@ -91,3 +91,13 @@ package poll
 //@ ensures result1 == nil ==> result0 != nil && result0.worker != nil && result0.server != nil
 //@ ensures result1 == nil ==> chancap(result0.worker.disconnect) == config.MaxConnections && chancap(result0.worker.connect) == config.MaxConnections && result0.worker.connections.max == config.MaxConnections
 //@ ensures result1 == nil ==> chancap(result0.sq) == config.Size && result0.worker.sq == result0.sq
+
+// Enqueue accepts a submission exactly when it was put on the queue (C12: a submission reported accepted is
+// processed and answered by the worker; one reported refused is answered with queue-full by the caller; never
+// both, never neither).
+//@ func (*Poll).Enqueue
+//@ props C12
+//@ nopanic C13
+//@ requires p != nil && p.sq != nil && !closed(p.sq)
+//@ ensures result == (sends(p.sq) == 1)
+//@ ensures sends(p.sq) <= 1
